@@ -37,10 +37,14 @@ func NewController(
 		conf: conf,
 	}
 
+	// An empty list or a leading empty prefix matches all service ids.
+	// Pass no prefixes in that case (ClientController and srpc.PrefixClient
+	// then forward every service id unchanged): srpc.CheckStripPrefix reports
+	// an empty matchedPrefix both for "no match" and for a match of the empty
+	// prefix, so a list starting with "" would match nothing at all.
 	serviceIdPrefixes := conf.GetServiceIdPrefixes()
-	if len(serviceIdPrefixes) == 0 {
-		// match all service ids
-		serviceIdPrefixes = append(serviceIdPrefixes, "")
+	if len(serviceIdPrefixes) != 0 && serviceIdPrefixes[0] == "" {
+		serviceIdPrefixes = nil
 	}
 
 	client, err := stream_srpc_client.NewClient(
